@@ -343,8 +343,9 @@ func reifyGetField(
 			return nil
 		}
 
-		// Primitive types return early when it doesn't implement the Initializer interface.
-		if fieldType.Kind() != reflect.Struct && !hasInitDefaults(fieldType) {
+		// Primitive types return early when it doesn't implement the Initializer interface
+		// (a regular expression held by value is a primitive, not a struct to be filled).
+		if (fieldType.Kind() != reflect.Struct || fieldType == tRegexp) && !hasInitDefaults(fieldType) {
 			if err := tryRecursiveValidate(to, opts.opts, opts.validators); err != nil {
 				return raiseValidation(cfg.ctx, cfg.metadata, name, err)
 			}
